@@ -34,6 +34,12 @@ CHECKS = {
         text="Seeded histories of init/fetch/feed/reseed/save/load/ascon_random/free/power-loss on a simulated device: the entropy tape and its faults come from a wrapped getrandom(), the flash page and its faults from the ascon_storage_t callbacks. Oracles are the sentences of the property: same plan twice => same output; flipping one consumed tape byte or one fed byte changes every later block >= 16 bytes; after every init/fetch/feed/reseed/save/load p^-1(state) has a zero rate; a fetch after 16384 produced bytes draws from the source first; every status equals the injected health of source/storage. Sampling over histories x fault sequences.",
         note="Trusted: harness p^-1 (self-tested against the library at start-up); Linux no-split guarantee for getrandom <= 256 bytes; status convention of random.h as repaired by the F12 fix commit.",
         design="§3 W3, §4 C15"),
+    "C17": dict(
+        technique="deterministic simulation: seeded life-cycle histories of the C++ cipher/hash/xof objects (every construction and keying path, every overload) mirrored call by call through the C API; the harness translation unit is the compile obligation",
+        category="exploration",
+        text="(1) Programs: asim/worlds/cppobj.cpp instantiates every public member and overload of the 12 cipher classes, hash/hasha, xof/xofa, xof[a]_with_output_length<1,17,32,64> and the byte-array helpers; if it stops compiling with an error located in a /repo header the check reports a C17 violation whose replay file holds the compiler log. (2) Histories: up to 3 cipher objects and 3 hash/xof objects live at once and go through default/key/NULL-key/saved-key/zero-length construction, set_key (full, zero length with NULL and non-NULL pointer, saved ISAP key, undocumented length -> false), set_nonce(0..24)/set_counter, encrypt/decrypt through all four overloads incl. tampered and too-short inputs, save_key, randomize_key, clear, copy construction, assignment (incl. self), reset, pad, destroy; every output must equal the C function for the model (key, nonce) or the mirrored C state, failed byte_array decrypts must leave an empty array, a crash counts as a violation.",
+        note="Trusted: the C API of the same library as reference (C01..C05 not claimed); g++ as the compiler that decides 'compiles when used'.",
+        design="§3 W8, §4 C17"),
     "C19": dict(
         technique="deterministic simulation: the tools' real main() in forked simulated processes over an in-memory file system with scripted syscall faults (EINTR/EAGAIN/short I/O/EIO/ENOSPC/open failure), crash points, tampering and entropy failure; thorough adds systematic k-th-call and every-byte sweeps",
         category="exploration",
